@@ -1,2 +1,109 @@
--- Driver stub for C12 (replaced when the property's model driver is written).
-def main : IO Unit := IO.println "C12: no driver yet"
+import Std.Data.HashMap
+import TsVerif.Common.IO
+import TsVerif.C12.Judge
+/-!
+Driver for C12.  Input: `thr <lang> <size> <lexed_ppm> <bytes_ppm> <fresh_ppm>` lines, then cases
+(measurements of the real runtime + dumps before the edit / after `ts_tree_edit` / after the
+re-parse), then `finish`.  Output per case
+
+`<id> judge=<ok|FAIL msg> marks=<ok|skipped|FAIL msg> lexed_ppm=.. bytes_ppm=.. fresh_ppm=.. tokens=.. nodes=.. heap=.. shared=.. marked=.. depth=..`
+
+and per (language, edit position) one line `growth-<lang>-<where> judge=<ok|FAIL msg> …`.
+-/
+open TsVerif TsVerif.C12 TsGen
+
+structure St where
+  thr : Std.HashMap (String × Nat) Thresholds := {}
+  series : Std.HashMap (String × String) (Array (Nat × Measured)) := {}
+  keys : Array (String × String) := #[]
+  mode : Nat := 0
+  id : String := ""
+  lang : String := ""
+  size : Nat := 0
+  wher : String := ""
+  start : Nat := 0
+  oldEnd : Nat := 0
+  meas : Std.HashMap String Nat := {}
+  before : Array String := #[]
+  edited : Array String := #[]
+  new : Array String := #[]
+
+def runCase (s : St) : String × Option Measured :=
+  match parseDump s.edited.toList, parseDump s.new.toList with
+  | some ed, some nw =>
+    let g := fun k => (s.meas.get? k).getD 0
+    let sh := shareStats ed.root nw.root
+    let m : Measured := { lexedPpm := ppm (g "lexed") (g "tokens"), bytesPpm := ppm (g "bytes_served") (g "doc_bytes")
+                          freshPpm := ppm (sh.heap - sh.shared) sh.heap }
+    let (marks, mk) := match parseDump s.before.toList with
+      | some bf =>
+        let r := marksOk s.start s.oldEnd bf.root ed.root
+        ((match r.fail with | none => "ok" | some msg => "FAIL " ++ msg), r)
+      | none => ("skipped", ({} : Marks))
+    let j := match s.thr.get? (s.lang, s.size) with
+      | none => s!"FAIL no threshold committed for {s.lang} at {s.size} tokens"
+      | some thr =>
+        match judgeCase thr m (g "incr_error" == 1) (g "scratch_error" == 1) (g "same_sexp" == 1) with
+        | some msg => "FAIL " ++ msg
+        | none => if marks.startsWith "FAIL" then "FAIL marking: " ++ (marks.drop 5).toString else "ok"
+    (s!"{s.id} judge={j} marks={marks} lexed_ppm={m.lexedPpm} bytes_ppm={m.bytesPpm} fresh_ppm={m.freshPpm} tokens={g "tokens"} lexed={g "lexed"} nodes={sh.nodes} heap={sh.heap} shared={sh.shared} marked={mk.marked} depth={mk.maxDepth}", some m)
+  | _, _ => (s!"{s.id} judge=BADINPUT unreadable dump", none)
+
+def growthLines (s : St) : Array String := Id.run do
+  let mut out := #[]
+  for key in s.keys do
+    let ser := ((s.series.get? key).getD #[]).qsort (fun a b => a.1 < b.1)
+    if ser.size < 2 then
+      out := out.push s!"growth-{key.1}-{key.2} judge=FAIL fewer than two sizes measured"
+      continue
+    let (n0, m0) := ser[0]!
+    let mut bad := ""
+    for (n, m) in ser.toList.drop 1 do
+      if !growthOk m0.lexedPpm m.lexedPpm then bad := s!"lexed fraction grows from {m0.lexedPpm} ppm at {n0} tokens to {m.lexedPpm} ppm at {n}"
+      else if !growthOk m0.bytesPpm m.bytesPpm then bad := s!"requested-bytes fraction grows from {m0.bytesPpm} ppm at {n0} tokens to {m.bytesPpm} ppm at {n}"
+      else if !growthOk m0.freshPpm m.freshPpm then bad := s!"fresh-node fraction grows from {m0.freshPpm} ppm at {n0} tokens to {m.freshPpm} ppm at {n}"
+    let last := ser[ser.size - 1]!
+    out := out.push s!"growth-{key.1}-{key.2} judge={if bad.isEmpty then "ok" else "FAIL " ++ bad} sizes={ser.size} lexed_small={m0.lexedPpm} lexed_big={last.2.lexedPpm} bytes_small={m0.bytesPpm} bytes_big={last.2.bytesPpm} fresh_small={m0.freshPpm} fresh_big={last.2.freshPpm}"
+  return out
+
+def step (s : St) (line : String) : IO St := do
+  if line.isEmpty then return s
+  match s.mode with
+  | 1 => if line == "end" then return { s with mode := 0 } else return { s with before := s.before.push line }
+  | 2 => if line == "end" then return { s with mode := 0 } else return { s with edited := s.edited.push line }
+  | 3 => if line == "end" then return { s with mode := 0 } else return { s with new := s.new.push line }
+  | _ =>
+    match line.splitOn " " with
+    | ["thr", lang, size, a, b, c] =>
+      return { s with thr := s.thr.insert (lang, natOf size) { lexed := natOf a, bytes := natOf b, fresh := natOf c } }
+    | ["case", id] => return { s with id := id, before := #[], edited := #[], new := #[], meas := {} }
+    | ["lang", l] => return { s with lang := l }
+    | ["size", n] => return { s with size := natOf n }
+    | ["where", w] => return { s with wher := w }
+    | "edit" :: sb :: oeb :: _ => return { s with start := natOf sb, oldEnd := natOf oeb }
+    | "measure" :: kvs =>
+      let m := kvs.foldl (fun (m : Std.HashMap String Nat) kv =>
+        match kv.splitOn "=" with
+        | [k, v] => m.insert k (natOf v)
+        | _ => m) {}
+      return { s with meas := m }
+    | ["before"] => return { s with mode := 1 }
+    | ["edited"] => return { s with mode := 2 }
+    | ["new"] => return { s with mode := 3 }
+    | ["run"] =>
+      let (line, m) := runCase s
+      IO.println line
+      match m with
+      | some m =>
+        let key := (s.lang, s.wher)
+        let keys := if s.series.contains key then s.keys else s.keys.push key
+        return { s with keys := keys, series := s.series.insert key (((s.series.get? key).getD #[]).push (s.size, m)),
+                        before := #[], edited := #[], new := #[] }
+      | none => return s
+    | ["finish"] =>
+      for l in growthLines s do IO.println l
+      return s
+    | _ => return s
+
+def main : IO Unit := do
+  let _ ← foldLines (← IO.getStdin) ({} : St) step
